@@ -212,4 +212,30 @@ ENTRIES.update({
           "differential testing on generated ASCII names), Rust's float parser (parse results travel with the attributes).",
  },
 })
+ENTRIES.update({
+ "C12": {
+  "text": "[A] proofs (Props/C12) for every inverse-kinematics oracle, RRT planner, collision predicate and scheduler choice: the densified pose list "
+          "is land, interpolated poses, steps in order, park with their flags; interpolated translations are convex combinations on the "
+          "segment ([R]); a successful adaptive transition is a chain of inverse-kinematics continuations within the transition cost ending "
+          "in a solution of the target pose; without random re-planning the trace consists, per pose, of interpolated waypoints (flag "
+          "LIN_INTERP, never TRACE/PARK) followed by a waypoint with the pose's flags solving that pose, in order; a returned plan was not "
+          "stopped, has no colliding waypoint, starts with the RRT onboarding path (from `from` under the C13 contract) flagged ONBOARDING "
+          "followed by the landing solution, and contains interpolated waypoints only if requested; plan succeeds iff some strategy "
+          "succeeds, for every choice of the parallel search. Runs compare the densification exactly, re-compute the Cartesian part of "
+          "every returned plan in the model, and check every clause of the property on the returned waypoints with the same robot's "
+          "collides()/compliant() and the independent chain-FK.",
+  "note": "Limits and pose reproduction of Cartesian waypoints are inherited from the ik oracle (C01, C08); RRT randomness is not replayed at "
+          "API level (hook-level replay is in C13); rayon's find_map_any and the stop flag are modelled by a choice index / pure "
+          "per-strategy outcomes. Orientation along the segment (slerp) is compared with the model, not characterised by a theorem.",
+ },
+})
+ENTRIES["C02"]["text"] = ("[R] proofs (Props/C02, Props/C02b): COMPLETENESS — for every parameter set with c2 > 0 and kappa > 0, signs +-1, and every joint "
+          "vector whose theta-image is not at a shoulder (cx1 != 0), elbow (sin(theta3+psi3) != 0) or wrist (sin theta5 != 0) singularity, "
+          "inverse_intern / inverse applied to its forward pose return a vector equal to it modulo 2pi with the same pose (ik_complete, both "
+          "shoulder branches, both elbow branches, both wrist branches), and the vector itself when all joints are inside (-pi, pi) "
+          "(inverse_roundtrip); CLOSURE — the forward map is invariant under the wrist flip and whole turns, the eight candidates are four "
+          "plus their flips, and the twin of every answer is an answer. Runs compare inverse and inverse_intern with the model and check "
+          "completeness, twin, no duplicates and equal answer-set sizes on the implementation's output at oracle-checked configurations.")
+ENTRIES["C02"]["note"] = ("No-duplicates and same-size are sampled (predicates), not theorems. Completeness is a theorem over the reals; an analytic branch "
+          "lost to f64 rounding one ulp beyond a domain edge (acos argument > 1) is visible only to the run. Trusted: Lean kernel + 3 standard axioms.")
 NOT_APPLICABLE = {}
